@@ -263,6 +263,52 @@ def h_image(sector: int, off_i: int, order: int) -> int:
     return 1
 
 
+def h_image_roland(cluster: int, off_i: int, perm: int) -> int:
+    """
+    pre: 2 <= cluster <= 8 and 0 <= off_i <= 5 and 0 <= perm <= 1
+    post: _ == 1
+    """
+    CNT[0] += 1
+    from vf.util import conc, untraced
+    cluster, off_i, perm = conc(cluster, 2, 8), conc(off_i, 0, 5), conc(perm, 0, 1)
+    with untraced():
+        import io
+        from vf import rolandw
+        from vf.props import c16, c02
+        import smpl_extract.actions as actions
+        # Smp0: clusters 2,3 (or stored 3,2); Smp1: cluster 4,5 reversed playback; Smp2: cluster 6
+        model = {"volumes": [("VolA", [0])], "performances": [("Perf0", [0])], "patches": [("Patch0", [0, 1])],
+                 "partials": [("Part0", [0, 1]), ("Part1", [2])],
+                 "samples": [dict(name="Smp0", words=c02._words(9000, 1), chain=[1, 0] if perm else None),
+                             dict(name="Smp1", words=c02._words(9216, 2), mode=5), dict(name="Smp2", words=c02._words(700, 3), mode=2)]}
+        img = rolandw.build(model)
+        full = dict(c16._do(actions.determine_image_type(io.BufferedReader(io.BytesIO(img))), ("export", None))[1])
+        if len(full) != 3:
+            return 0
+        cut = rolandw.DATA0 + cluster * rolandw.CL + (0, 1, 100, 4608, 9214, 9215)[off_i]
+        try:
+            got = dict(c16._do(actions.determine_image_type(io.BufferedReader(io.BytesIO(img[:cut]))), ("export", None))[1])
+        except Exception:
+            got = None
+        extent = {"out/VolA/Perf0/Smp0.wav": 4, "out/VolA/Perf0/Smp1.wav": 6, "out/VolA/Perf0/Smp2.wav": 7}     # first cluster after the sample's data
+        for path, endc in extent.items():
+            if cut >= rolandw.DATA0 + endc * rolandw.CL:
+                if got is None or got.get(path) != full[path]:
+                    return 0
+        if got is None:
+            return 1
+        for path, data in got.items():
+            if path not in full:
+                return 0
+            try:
+                a, b = _riff(data), _riff(full[path])
+            except ValueError:
+                return 0
+            if not b[-1][1].startswith(a[-1][1]) or len(a[-1][1]) % 2 != 0:
+                return 0
+    return 1
+
+
 def _riff(data):
     import struct
     if len(data) < 12 or data[:4] != b"RIFF" or data[8:12] != b"WAVE" or struct.unpack("<I", data[4:8])[0] != len(data) - 8:
@@ -323,6 +369,9 @@ def obligations(tier, seed):
     for order in (0, 1):
         obs.append(ob(f"C15.image/akai/order={order}", "h_image", [f"order == {order}"], "cut sector and offset inside it", "9 sectors x 8 offsets; volume of 3 samples incl. an L/R pair",
                       ["independent AKAI writer", "in-memory export"]))
+    for perm in (0, 1):
+        obs.append(ob(f"C15.image/roland/perm={perm}", "h_image_roland", [f"perm == {perm}"], "cut cluster and offset inside it", "7 clusters x 6 offsets; 3 samples (one stored in reverse cluster order, one reverse-played)",
+                      ["independent S-770 writer", "in-memory export"]))
     for o in c13.obligations(tier, seed):
         if o["name"] == "C13.scan":
             obs.append(dict(o, name="C15.scan"))
